@@ -8,7 +8,7 @@ import Verif.Model.AcmeChallenge
     op=validate typ=http|dns|tls|da|wireoidc|wiredpop|unknown st=pending|valid|invalid|other perr=<errT>
        val= tok= thumb=x..|! ip=x..|! strict=0|1 ph=<n> pt=<n> db=0|1 cmp=0|1
        h=<pre>:<sha256>:<b64url sha256>,…                     (hash oracle table)
-       w=err | w=resp:<status>:<body|!>                       (http)
+       w=err | w=resp:<status>:<body|!> | w=real:<status>:<body served>:<redirects>:<refused>   (http; real = through acme.NewClient())
        w=err | w=txt:<r1>;<r2>…  (`txt:-` = empty set)         (dns)
        w=alert:<n> | w=other | w=conn:<proto>  leaf=0 | leaf=1 ldns=<list> lips=<list> exts=<id~crit~octets,…>   (tls)
        w=dpop … (see `dpop?`) | w=oidc … (see `oidc?`)                                    (wire)
@@ -78,9 +78,9 @@ def targetS : Target → String
   | .txt n => "txt:" ++ xs n
   | .tls a sni => "tls:" ++ xs a ++ ":" ++ xs sni
 
-def outcomeS (cmp : Bool) (az : AzRec) (foreign : Bool) (o : Outcome) : String :=
+def outcomeS (cmp : Bool) (az : AzRec) (foreign : Bool) (sib : List Status) (o : Outcome) : String :=
   let r := daAuthzRecord az o
-  s!"{statusS o.status} err={errS o.err} ret={match o.ret with | .ok => "ok" | .ise => "ise" | .notFound => "notfound" | .unauthorized => "unauthorized"} fp={if o.authzFp then 1 else 0} azrec={statusS r.status}:{if r.expired then 1 else 0} az={statusS (authzUpdateStatus r (ownChallengeValid foreign o))} tgt={if cmp then targetS o.target else "?"}"
+  s!"{statusS o.status} err={errS o.err} ret={match o.ret with | .ok => "ok" | .ise => "ise" | .notFound => "notfound" | .unauthorized => "unauthorized"} fp={if o.authzFp then 1 else 0} azrec={statusS r.status}:{if r.expired then 1 else 0} az={statusS (authzUpdateStatusL r ((if foreign then [] else [o.status]) ++ sib))} tgt={if cmp then targetS o.target else "?"}"
 
 /-- oracle table entry -/
 def hentry? (t : String) : Option (Str × Str × Str) :=
@@ -183,6 +183,7 @@ def world? (kv : List (String × String)) : Option World := do
   match w.splitOn ":" with
   | ["err"] => pure (if lookup kv "typ" = some "dns" then .txt none else .http .err)
   | ["resp", st, body] => do pure (.http (.resp (← st.toInt?) (← optStr? body)))
+  | ["real", st, body, red, ref] => do pure (.http (clientGet (← bool? ref) (← red.toNat?) (← st.toInt?) (← str? body)))
   | ["txt", l] => do pure (.txt (some (← list? ";" str? l)))
   | ["alert", n] => do pure (.tls (.alert (← n.toNat?)))
   | ["other"] => pure (.tls .other)
@@ -240,6 +241,8 @@ def evalValidate (handler : Bool) (kv : List (String × String)) : Option String
   -- the owning authorization as stored before the call (default: pending, not expired)
   let az : AzRec := ⟨((lookup kv "azst").bind status?).getD .pending, ((lookup kv "azexp").bind bool?).getD false⟩
   let foreign := ((lookup kv "azforeign").bind bool?).getD false
+  -- the other challenges of the same authorization (stored statuses)
+  let sib : List Status := ((lookup kv "azsib").bind (list? "," status?)).getD []
   let ch : Ch := { typ, status, err := perr, value, token, thumb, ip }
   -- every digest the model can ask for must be in the oracle table
   let need : List Str := match typ, thumb with
@@ -264,7 +267,7 @@ def evalValidate (handler : Bool) (kv : List (String × String)) : Option String
       let azUrlS := if req.azUrl == .foreign || req.azUrl == .foreignOther then statusS (pollForeign faz) else "-"
       pure s!"{codeS} st={statusS e.status} err={errS e.err} fpown={if fpOwn then 1 else 0} fpurl={if fpUrl then 1 else 0} azown={statusS (pollOwn az e)} azurl={azUrlS} tgt={if cmp then targetS e.target else "?"}"
   else match validate (mkHash tab) cfg dbOk ch w with
-    | .done o => pure (outcomeS cmp az foreign o)
+    | .done o => pure (outcomeS cmp az foreign sib o)
     | .crash => pure "crash"
     | .unmodelled => pure "unmodelled"
     | .mismatch => pure "mismatch"
